@@ -36,7 +36,7 @@ def run_sub(seed, job=None, probe=False, timeout=1800, tz=None):
         env["TZ"] = tz  # POSIX form, needs no zone database
     if probe:
         code = ("import json;T=%r;print(json.dumps({k:list(set(v)) for k,v in T.items()}))" % (P.TRACKED,))
-        r = subprocess.run([sys.executable, "-c", code], env=env, capture_output=True, text=True, timeout=60)
+        r = subprocess.run([sys.executable, "-c", code], env=env, capture_output=True, text=True, timeout=600)
         return json.loads(r.stdout)
     r = subprocess.run([sys.executable, "-W", "ignore", "-m", "props.purity_inputs"], env=env, cwd=HERE,
                        input=json.dumps(job), capture_output=True, text=True, timeout=timeout)
